@@ -9,6 +9,7 @@ case = {"trainer": "STDP"|"StableSTDP"|"TripletSTDP"|"StableTripletSTDP"|"MSTDP"
         "B": int, "kmax": int|None (max delay in steps; None = connection without delays), "delays": [[k...]...] (steps,
         weight-shaped; fractional values = delays between two steps), "delayed": bool, "reduction": "sum"|"mean"|"amax"|None, "pre": [T][B][n_in] 0/1,
         "post": [T][B][n_out] 0/1, "signal": None | [T] floats | [T][B] floats, "scale": float,
+        "signal_forms": None | [T] of None|"t0_f64"|"t0_f32"|"t0_i64" (a scalar reward passed as a 0-d tensor of that dtype),
         "clear_each": bool (apply + clear the update after every step instead of accumulating)}
 """
 import math
@@ -180,12 +181,7 @@ def run_group(g):
             if cc["conn"] == "conv":
                 synpre.append(conn.like_synaptic(x).to(torch.int64).tolist())
             layer(x)
-        if sig is None:
-            trainer()
-        else:
-            s = sig[t]
-            s = torch.tensor(s, dtype=torch.float64) if isinstance(s, list) else float(s)
-            trainer(s, g.get("scale", 1.0))
+        call_trainer(trainer, None if sig is None else sig[t], g.get("scale", 1.0), form_at(g, t))
         for (cc, layer, conn, neuron, w0, steps, synpre) in built:
             acc = conn.updater.weight
             steps.append({"pos": flat(acc.pos), "neg": flat(acc.neg)})
@@ -218,12 +214,7 @@ def run(case):
             synpre.append(conn.like_synaptic(x).to(torch.int64).tolist())
         out = layer(x)
         assert torch.equal(out.reshape(B, -1), torch.tensor(case["post"][t], dtype=torch.bool).reshape(B, -1))
-        if sig is None:
-            trainer()
-        else:
-            s = sig[t]
-            s = torch.tensor(s, dtype=torch.float64) if isinstance(s, list) else float(s)
-            trainer(s, case.get("scale", 1.0))
+        call_trainer(trainer, None if sig is None else sig[t], case.get("scale", 1.0), form_at(case, t))
         acc = conn.updater.weight
         pos, neg = acc.pos, acc.neg
         rec = {"pos": flat(pos), "neg": flat(neg)}
@@ -238,12 +229,26 @@ def run(case):
             "w_total": flat(conn.weight.detach() - w0), "synpre": synpre}
 
 
-def call_trainer(trainer, sig_t, scale):
+FORM_DTYPE = {"t0_f64": torch.float64, "t0_f32": torch.float32, "t0_i64": torch.int64}
+
+
+def call_trainer(trainer, sig_t, scale, form=None):
+    """one trainer call.  The reward of the step is passed as the case says: a python float (default), a 0-d tensor of
+    the given dtype (form "t0_f64" / "t0_f32" / "t0_i64": documented to behave like the same python float) or, for a
+    list, a 1-d per-sample tensor"""
     if sig_t is None:
         trainer()
+    elif isinstance(sig_t, list):
+        trainer(torch.tensor(sig_t, dtype=torch.float64), scale)
+    elif form in FORM_DTYPE:
+        trainer(torch.tensor(sig_t, dtype=FORM_DTYPE[form]), scale)
     else:
-        s = torch.tensor(sig_t, dtype=torch.float64) if isinstance(sig_t, list) else float(sig_t)
-        trainer(s, scale)
+        trainer(float(sig_t), scale)
+
+
+def form_at(case, t):
+    f = case.get("signal_forms")
+    return None if f is None else f[t]
 
 
 def set_delays(conn, delays, dt, how):
@@ -305,7 +310,7 @@ def run_scenario(case):
                 raise ValueError(ev["op"])
         x = torch.tensor(case["pre"][t], dtype=torch.bool).reshape(B, *conn.inshape)
         layer(x)
-        call_trainer(trainer, None if sig is None else sig[t], scale)
+        call_trainer(trainer, None if sig is None else sig[t], scale, form_at(case, t))
         acc = conn.updater.weight
         rec = {"pos": flat(acc.pos), "neg": flat(acc.neg)}
         wb = conn.weight.detach().clone()
@@ -354,7 +359,7 @@ def run_biclique(g):
     for t in range(T):
         layer({f"k{i}": (torch.tensor(cs["pre"][t], dtype=torch.bool).reshape(B, cs["n_in"]),)
                for i, cs in enumerate(g["conns"])})
-        call_trainer(trainer, None if sig is None else sig[t], scale)
+        call_trainer(trainer, None if sig is None else sig[t], scale, form_at(g, t))
         for i, conn in enumerate(conns):
             acc = conn.updater.weight
             recs[i].append({"pos": flat(acc.pos), "neg": flat(acc.neg)})
